@@ -1689,6 +1689,48 @@ def gen_access(repo):
              'tensor_algebra/network_contraction.h extractor_contract_3::contract_impl with meta/opmin_meta.h triplet_flop_cost: per branch of which_variant (= argmin of the three pairwise costs and the single-evaluation cost): '
              '(variant, index lists of the first einsum, its operands (0 a 1 b 2 c), k of the resulting_index_k given to tmp, the pair resulting_index_k is defined from in the cost model, '
              'index list and operand of the third tensor, tmp is the first operand of the second einsum); tensors and index lists of resulting_*_k correspond (checked by the translator)')
+    # ---- simd_vector/simd_vector_*.h: every alignment-requiring load / store intrinsic of the SIMD vector classes is guarded (C07)
+    def simd_aligned_sites():
+        AL = r'\b_mm(?:256|512)?_(?:mask_|maskz_)?(?:load|store|stream)_(?:pd|ps|si128|si256|si512|epi32|epi64)\b'
+        def headers(txt, pos):
+            out = []; depth = 0; k = pos
+            while k > 0:
+                k -= 1
+                if txt[k] == '}': depth += 1
+                elif txt[k] == '{':
+                    if depth == 0: out.append(' '.join(txt[max(0, k - 160):k].split()))
+                    else: depth -= 1
+            return out
+        def classify(txt, m):
+            pre = txt[:m.start()]
+            k = max(pre.rfind(';'), pre.rfind('{'), pre.rfind('}'))
+            lead = re.sub(r'^#\w+ \w+ ', '', ' '.join(pre[k + 1:].split()))
+            if re.match(r'if \(Aligned\)', lead): return 1
+            if re.match(r'else\b', lead) and re.search(r'if\s*\(\s*!\s*Aligned\s*\)[^;{}]*;\s*$', pre[:k + 1]): return 2
+            for h in headers(txt, m.start()):
+                if re.search(r'if \(Aligned\)$', h): return 3
+                if re.search(r'aligned_(load|store) ?\([^()]*\)( const)?$', h): return 5
+                if re.search(r'\)( const)?$', h) and not re.search(r'\b(if|for|while|switch) ?\([^()]*\)$', h): return 0
+            return 0
+        items = []
+        for fi, fn in enumerate(['simd_vector_double.h', 'simd_vector_float.h', 'simd_vector_int32.h', 'simd_vector_int64.h', 'simd_vector_complex_double.h', 'simd_vector_complex_float.h']):
+            txt = strip_comments(G.src('simd_vector/' + fn)); n0 = len(items)
+            for m in re.finditer(AL, txt): items.append('(%d, %d)' % (fi, classify(txt, m)))
+            if len(items) - n0 < 15: raise XErr('%s: only %d alignment-requiring intrinsics found' % (fn, len(items) - n0))
+        return '[' + '; '.join(items) + ']'
+    G.define('gen_simd_aligned_sites', '', 'list (nat * nat)', simd_aligned_sites,
+             'simd_vector/simd_vector_{double,float,int32,int64,complex_double,complex_float}.h: every alignment-requiring load / store / stream intrinsic (plain and masked): (file, how it is guarded: '
+             '1 the statement under `if (Aligned)`, 2 the else of `if (!Aligned)`, 3 inside a block under `if (Aligned)`, 5 inside aligned_load / aligned_store, 0 not guarded)')
+    def simd_aligned_defaults():
+        items = []
+        for fi, fn in enumerate(['simd_vector_double.h', 'simd_vector_float.h', 'simd_vector_int32.h', 'simd_vector_int64.h', 'simd_vector_complex_double.h', 'simd_vector_complex_float.h']):
+            txt = strip_comments(G.src('simd_vector/' + fn)); n0 = len(items)
+            for m in re.finditer(r'\b(mask_load|mask_store|load|store|SIMDVector)\s*\(([^()]*)\bbool\s+Aligned\s*=\s*(true|false)\s*\)', txt):
+                items.append('(%d, %s, %s)' % (fi, B(m.group(1).startswith('mask_')), m.group(3)))
+            if len(items) - n0 < 9: raise XErr('%s: only %d defaulted Aligned parameters found' % (fn, len(items) - n0))
+        return '[' + '; '.join(items) + ']'
+    G.define('gen_simd_aligned_defaults', '', 'list (nat * bool * bool)', simd_aligned_defaults,
+             'simd_vector/simd_vector_*.h: the default of every `bool Aligned` parameter: (file, the function is mask_load / mask_store, default value)')
     hdr = ('(** GENERATED by lib/cxx2v.py from the C++ source of /repo on every run -- do not edit.\n'
            '    Index expression of every operand / result access of the transpose and matmul kernels;\n'
            '    structure of the reductions and predicates of AbstractTensorFunctions.h. *)\n'
